@@ -522,8 +522,16 @@ func mergeVal(g *Term, a, b Value) Value {
 		panic(mergeFail{"nil"})
 	case FuncV:
 		return av
+	case RegexV:
+		return av
 	case SeqV:
-		if bv, ok := b.(SeqV); ok && len(av.Elems) == len(bv.Elems) {
+		if av.At != nil {
+			if bv, ok := b.(SeqV); ok && bv.At != nil && termEq(av.SymID, bv.SymID) {
+				return av
+			}
+			panic(mergeFail{"symbolic sequence"})
+		}
+		if bv, ok := b.(SeqV); ok && len(av.Elems) == len(bv.Elems) && bv.At == nil {
 			out := SeqV{Len: Ite(g, av.Len, bv.Len), Typ: av.Typ}
 			for i := range av.Elems {
 				if sameValue(av.Elems[i], bv.Elems[i]) {
@@ -683,10 +691,16 @@ func sameValue(a, b Value) bool {
 			}
 		}
 		return true
+	case RegexV:
+		bv, ok := b.(RegexV)
+		return ok && bv.Pattern == av.Pattern
 	case SeqV:
 		bv, ok := b.(SeqV)
 		if !ok || len(av.Elems) != len(bv.Elems) || !termEq(av.Len, bv.Len) {
 			return false
+		}
+		if av.At != nil || bv.At != nil {
+			return av.At != nil && bv.At != nil && termEq(av.SymID, bv.SymID)
 		}
 		for i := range av.Elems {
 			if !sameValue(av.Elems[i], bv.Elems[i]) {
